@@ -10,7 +10,7 @@ import networkx as nx
 import numpy as np
 
 from . import env, observe, oracles
-from .seams import DiskSeam, InjectedOSError
+from .seams import DiskSeam, InjectedOSError, quiesce_io
 from .sim import StepTimeout
 
 
@@ -162,6 +162,7 @@ class IO:
             raise
         except BaseException as e:  # noqa: BLE001
             exc = e
+        quiesce_io()
         if seam.fired:
             sim.count("io_fault_" + seam.fired[0])
         return val, exc, seam
@@ -239,7 +240,7 @@ class IO:
                 self._roundtrip_compare(sim, op, fmt, d, out, with_pos=True, why="after a swallowed write error")
         return out
 
-    def _sweep(self, sim, op, fmt, subset, kind, cap=160):
+    def _sweep(self, sim, op, fmt, subset, kind, cap=80):
         """Single-fault sweep: fail every k-th call of every kind of this one export on this
         state (strided down to `cap` positions). The object must stay unchanged each time
         (C16); an export that returns normally although a write failed must still
@@ -271,6 +272,7 @@ class IO:
                 raise
             except BaseException as e:  # noqa: BLE001
                 exc = e
+            quiesce_io()
             if seam.fired:
                 sim.count("io_fault_" + fk)
             if sim.active("C16"):
